@@ -13,7 +13,7 @@ import (
 
 func init() {
 	PropertyText["C08"] = [2]string{
-		"Decides: the text recorded/queried in the seen store and the text compared with the store's answer come from the same accessor of the same item (R-SEEN-KEY); the canonical string cannot depend on map iteration order, time or randomness (R-CANON-DETERMINISTIC); an item is marked Seen only on the store's 'found' answer and never on the asset→seed promotion, every other path records the URL, and the hash state is reset between items (R-SEEN-ONLY-IF-FOUND, R-SEEN-HASH-RESET); seencheck and de-duplication run before any request is built and only Fresh items get requests (R-REQUEST-ONLY-AFTER-GATE, R-DELETE-ADVANCE); DedupeItems removes a node only on a map hit for its URL and keeps the survivor in the map (R-DEDUPE-KEEPS-ONE). A pending duplicate is always dropped in favour of the completed node with the same URL (prefers-completed clause).",
+		"Decides: the text recorded/queried in the seen store and the text compared with the store's answer come from the same accessor of the same item (R-SEEN-KEY); the canonical string cannot depend on map iteration order, time or randomness (R-CANON-DETERMINISTIC); an item is marked Seen only on the store's 'found' answer and never on the asset→seed promotion, every other path records the URL, and the hash state is reset between items (R-SEEN-ONLY-IF-FOUND, R-SEEN-HASH-RESET); seencheck and de-duplication run before any request is built and only Fresh items get requests (R-REQUEST-ONLY-AFTER-GATE, R-DELETE-ADVANCE); DedupeItems removes a node only on a map hit for its URL and keeps the survivor in the map (R-DEDUPE-KEEPS-ONE). A pending duplicate is always dropped in favour of the completed node with the same URL (prefers-completed clause). The local seencheck's database lookup depends on no other state (R-SEEN-ASKS-STORE).",
 		"Not decided: atomicity of check-then-record across concurrent preprocess workers (a schedule question); LevelDB / crawl HQ correctness.",
 	}
 	PropertyText["C09"] = [2]string{
